@@ -4,8 +4,41 @@ CLEANUP = "__CPROVER_file_local_puthread_c_pp_uthread_cleanup"
 EMUL = ["TE_HOOKS", "TE_SPINLOCK_C11", "TE_START_ROUTINE=" + PROXY, "TE_DTOR_A=" + CLEANUP, "TE_DTOR_B=c05_tls_dtor"]
 UNITS = ["src/puthread.c", "src/puthread-posix.c", "src/patomic-c11.c", "src/pspinlock-c11.c", "src/pmem.c", "src/pstring.c"]
 MODELS = ["models/alloc.c", "models/verif.c", "models/libc_stub.c", "models/thread_emul.c"]
-META = {"assumptions": [], "outside": []}
-MANIFEST = {}
+META = {
+ "assumptions": [
+  "threads = sequential nested-atomic emulation (models/thread_emul.c): pthread_create registers a pending thread; at every model entry that touches "
+  "shared state (atomic builtins, spinlock acquisition, pthread_create/join/key_create/key_delete/get/setspecific, allocator free) a symbolic choice may run a "
+  "pending thread's whole start routine to completion, nested up to preemption_depth; pthread_join runs a pending target; thread end runs the TLS "
+  "destructors (<=2 rounds, asserted sufficient); a thread that would block on a lock whose holder is suspended is an infeasible path",
+  "__atomic builtins of patomic-c11.c / pspinlock-c11.c = preemption point + plain C operation (models/thread_atomics.h); memory ordering is C04's subject",
+  "p_spinlock_lock (c11) replaced by its acquisition contract (preemption point, lock free, take it); the retry loop itself is C01's subject; "
+  "p_spinlock_new/unlock/trylock/free are the real code",
+  "pthread_exit cannot unwind a sequential stack: the harness thread function returns right after p_uthread_exit and the model asserts that no model "
+  "entry is executed by that thread in between",
+  "allocator = ledger model over CBMC malloc installed through p_mem_set_vtable; never fails here (C18); free is a preemption point, malloc is not (fresh block is private)",
+  "skeleton concrete per query (which threads exist, where B is created, joinable/detached, named): keeps handle pointers concrete for CBMC; operation kinds, "
+  "their order after the creates, targets, exit codes, TLS values and all scheduling choices are solver variables",
+  "life/tls families run with every TLS key already used once by main (platform keys exist); with existing keys a TLS call only touches the caller's own slot, so "
+  "main's TLS calls take a single preemption point in front of them; lazy key creation and its race are decided by the keyrace queries (no pre-use)",
+  "printf (P_ERROR/P_WARNING) has an empty body"],
+ "outside": ["interleavings in which a preempted thread resumes before its preemptor has finished (A1 B1 A2 B2) and nesting deeper than preemption_depth",
+             "weak-memory effects (emulation is sequentially consistent); data races on plain fields are only seen at model-entry granularity",
+             "more than 2 created threads; histories longer than the stated number of operations",
+             "real pthread behaviour, priorities, stack sizes, p_uthread_set_priority / ideal_count / yield",
+             "the first-use race between two CREATED threads nested inside a third thread's operation (depth 2) is attempted in the thorough tier only",
+             "leak of the lazily allocated key block by p_uthread_local_free: C20's subject"],
+}
+MANIFEST = {
+ "level_text": "Bounded model checking of the real puthread.c + puthread-posix.c + patomic-c11.c + pspinlock-c11.c under a sequential thread emulation in which the solver chooses, at every shared-state access, whether a pending thread runs there: every history of N main-thread calls (ref/unref/join/current/TLS) x every thread body of M calls (TLS/current/ref/exit code) x every such schedule is compared with a ghost reference-count and TLS model; CBMC's pointer checks decide use-after-free/double free of the handle on the real code. Right level because the failures (unref before start, exit before create returns, destructor twice, lost CAS) are schedule-dependent memory errors that tests hit only by luck, while the state per scenario is small.",
+ "level_note": "Trusted: CBMC 6.11 + SAT back end, thread emulation (preemption only at model entries, preemptor runs to completion, depth 1 quick / 2 thorough-small), allocator ledger, spinlock acquisition contract. Bounds: <=2 created threads, 3-4 main calls, 2 calls per thread body (quick).",
+ "technique": "CBMC, sequential nested-atomic thread emulation of the real units, ghost reference model",
+ "design_ref": "DESIGN.md §3 C05, §1.2",
+}
+FUNCS = ["p_uthread_init", "p_uthread_create_full", "p_uthread_create", "pp_uthread_proxy", "pp_uthread_cleanup", "p_uthread_exit", "p_uthread_join",
+         "p_uthread_current", "p_uthread_ref", "p_uthread_unref", "p_uthread_create_internal", "p_uthread_exit_internal", "p_uthread_wait_internal",
+         "p_uthread_free_internal", "p_uthread_set_name_internal", "p_uthread_local_new", "p_uthread_get_local", "p_uthread_set_local",
+         "p_uthread_replace_local", "pp_uthread_get_tls_key", "p_atomic_int_inc", "p_atomic_int_dec_and_test", "p_atomic_pointer_get",
+         "p_atomic_pointer_compare_and_exchange", "p_spinlock_new", "p_spinlock_unlock", "p_strdup", "p_malloc0", "p_free"]
 def life(nops, tops, depth, extra=(), name=None, timeout=1500):
     return Q(name or "life_ops%d_tops%d_depth%d" % (nops, tops, depth), "harness/C05_life.c", units=UNITS, models=MODELS,
              defs=["NOPS=%d" % nops, "TOPS=%d" % tops, "TE_DEPTH=%d" % depth] + EMUL + list(extra),
@@ -15,8 +48,8 @@ def race(two, depth, extra=(), timeout=1500):
     return Q("keyrace_%dthr_d%d%s" % (2 if two else 1, depth, "".join("_" + e.lower() for e in extra)), "harness/C05_keyrace.c", units=UNITS, models=MODELS,
              defs=["TE_DEPTH=%d" % depth] + (["TWO"] if two else []) + EMUL + list(extra),
              includes=["models/redir_thread.h"], export_local=True, remove_bodies=["p_spinlock_lock"],
-             unwindset={"strlen.0": 4}, timeout=timeout, object_bits=11,
-             bounds={"threads": 2 if two else 1, "preemption_depth": depth})
+             unwindset={"strlen.0": 4}, timeout=timeout, object_bits=11, funcs=FUNCS,
+             bounds={"threads": 2 if two else 1, "preemption_depth": depth, "raced_key": "library key" if "RACE_LIB" in extra else "user key"})
 def fam(f, nops, tops, depth, pos_b=99, ja=1, jb=1, prewarm=True, named=False, timeout=1500):
     defs = ["POS_B=%d" % pos_b, "JOINABLE_A=%d" % ja, "JOINABLE_B=%d" % jb]
     if f != "ALL": defs.append("FAM_" + f)
@@ -34,13 +67,27 @@ def queries(tier):
         f = cfg.split(",")[0]; n, t, d, pb, ja, jb = [int(x) for x in cfg.split(",")[1:]]
         return [fam(f, n, t, d, pb, ja, jb)]
     qs = []
-    if os.environ.get("C05_EXP"):
-        return [race(True, 2, timeout=3400), race(True, 2, ["RACE_LIB"], timeout=3400), fam("LIFE", 2, 2, 2, pos_b=0, timeout=3400),
-                fam("LIFE", 3, 2, 1, named=True), fam("LIFE", 2, 2, 1, prewarm=False), fam("ALL", 3, 2, 1), fam("TLS", 2, 2, 1, pos_b=0),
-                fam("LIFE", 3, 2, 2, timeout=3400)]
+    JD = [(1, 1), (1, 0), (0, 1), (0, 0)]
     if tier == "quick":
-        qs += [fam("LIFE", 4, 2, 1, ja=1), fam("LIFE", 4, 2, 1, ja=0)]
-        qs += [fam("LIFE", 3, 2, 1, pos_b=1, ja=ja, jb=jb) for ja in (0, 1) for jb in (0, 1)]
-        qs += [fam("TLS", 3, 2, 1, ja=1), fam("TLS", 3, 2, 1, ja=0)]
-        qs += [race(False, 1), race(True, 1), race(True, 2), race(False, 1, ["RACE_LIB"]), race(True, 1, ["RACE_LIB"]), race(True, 2, ["RACE_LIB"])]
+        # one created thread: handle life cycle, 4 main calls x 2 thread calls, every schedule (depth 1)
+        qs += [fam("LIFE", 4, 2, 1, ja=1), fam("LIFE", 4, 2, 1, ja=0), fam("LIFE", 3, 2, 1, ja=1, named=True)]
+        # two created threads, B created after the first main call
+        qs += [fam("LIFE", 3, 2, 1, pos_b=1, ja=ja, jb=jb) for ja, jb in JD]
+        # TLS values / destroy notifier, one and two threads
+        qs += [fam("TLS", 3, 2, 1, ja=1), fam("TLS", 3, 2, 1, ja=0), fam("TLS", 2, 1, 1, pos_b=0)]
+        # everything mixed
+        qs += [fam("ALL", 3, 2, 1, ja=1)]
+        # lazy creation of the platform key raced by main and 1 / 2 threads (user key, library key)
+        qs += [race(False, 1), race(True, 1), race(False, 1, ["RACE_LIB"]), race(True, 1, ["RACE_LIB"])]
+    else:
+        qs += [fam("LIFE", 5, 2, 1, ja=1), fam("LIFE", 5, 2, 1, ja=0), fam("LIFE", 4, 2, 1, ja=1, named=True), fam("LIFE", 4, 2, 1, ja=0, named=True)]
+        qs += [fam("LIFE", 4, 2, 1, pos_b=pb, ja=ja, jb=jb, timeout=3000) for pb in (0, 1, 2) for ja, jb in JD]
+        qs += [fam("TLS", 4, 2, 1, ja=1), fam("TLS", 4, 2, 1, ja=0), fam("TLS", 2, 2, 1, pos_b=0, timeout=3000), fam("TLS", 2, 2, 1, pos_b=0, ja=0, jb=0, timeout=3000),
+               fam("TLS", 3, 1, 1, pos_b=1, timeout=3000)]
+        qs += [fam("ALL", 4, 2, 1, ja=1, timeout=3000), fam("ALL", 4, 2, 1, ja=0, timeout=3000)]
+        # keys created lazily inside the history (no pre-use by main)
+        qs += [fam("LIFE", 2, 2, 1, prewarm=False, timeout=3000)]
+        # preemption depth 2: B inside A inside main
+        qs += [fam("LIFE", 1, 1, 2, pos_b=0, timeout=3000), fam("LIFE", 1, 1, 2, pos_b=0, ja=0, jb=0, timeout=3000)]
+        qs += [race(False, 1), race(True, 1), race(False, 1, ["RACE_LIB"]), race(True, 1, ["RACE_LIB"])]
     return qs
